@@ -98,16 +98,17 @@ def apply_directives(body, directives, unit):
             continue
         m = re.fullmatch(r"sub([*?]|\d+)?", key)
         if m:
-            if "=>" not in val:
+            sep = "~~>" if "~~>" in val else "=>"
+            if sep not in val:
                 raise TemplateError(f"sub without =>: {val}")
-            pat, repl = val.split("=>", 1)
+            pat, repl = val.split(sep, 1)
             cnt = m.group(1)
             cnt = "?" if cnt is None else (cnt if cnt in "*?" else int(cnt))
             body.sub(pat.strip(), repl.strip(), count=cnt)
             continue
         m = re.fullmatch(r"m2f([*?]|\d+)?", key)
         if m:
-            meth, repl = val.split("=>", 1)
+            meth, repl = val.split("~~>" if "~~>" in val else "=>", 1)
             cnt = m.group(1)
             cnt = "?" if cnt is None else (cnt if cnt in "*?" else int(cnt))
             body.method_to_fn(meth.strip(), repl.strip(), count=cnt)
